@@ -171,6 +171,13 @@ def run(ctx):
     rc2, mlog = vlib.sh([exe, out], timeout=2400)
     m = re.search(r"CASES (\d+) MISMATCHES (\d+)", mlog)
     mism = int(m.group(2)) if m else -1
+    compared = int(m.group(1)) if m else -1
+    # the driver must have compared exactly the cases the harness generated (a truncated case file,
+    # a driver reading another file or stopping early is not a pass)
+    ctx.min_evaluations = 50000 if not ctx.replay else 1
+    if compared != summ.get("cases", 0) or rc2 != 0:
+        ctx.violation("c19-driver-count", "the model driver compared %s cases, the harness generated %s (rc=%s): %s"
+                      % (compared, summ.get("cases"), rc2, mlog[-400:]), {"driver_output": mlog[-3000:]}, found_input=False)
     samples = []
     with open(out) as f:
         for i, line in enumerate(f):
@@ -181,7 +188,7 @@ def run(ctx):
         ops, detail = d.split(" ## ", 1)
         ctx.violation("c19-" + kind, "IntervalBST breaks C19 (%s): %s after ops [%s]" % (kind, detail, ops),
                       {"ops": ops, "detail": detail, "how": "./check C19 --replay <this file>"})
-    if mism != 0 and not summ["propfail"]:
+    if mism != 0:      # reported whatever else failed: a disagreement is never hidden by another failure
         first = re.search(r"MISMATCH.*\n.*\n.*", mlog)
         ctx.violation("c19-correspondence", "model and implementation disagree on %s case(s); the theorems of "
                       "Properties/C19.v no longer speak about this code: %s" % (mism, first.group(0) if first else mlog[-500:]),
@@ -200,7 +207,7 @@ def run(ctx):
                                              "wall_s": round(time.time() - t1, 2)}
     if xbad is None:
         ctx.violation("c19-crosscheck-machinery", "vm_compute cross-check did not run: " + xlog, {"log": xlog}, found_input=False)
-    elif xbad and mism == 0 and not summ["propfail"]:
+    elif xbad and mism == 0:
         # the extracted model agreed with the implementation but the kernel's evaluation does not:
         # extraction / driver and the Coq model differ
         ctx.violation("c19-crosscheck", "Coq (vm_compute) disagrees with the recorded implementation output although the "
